@@ -19,6 +19,14 @@ run_demo() {
   for f in seed/demo$N/*.rs; do
     [ -e "$f" ] || continue
     stem=seed_demo_$(basename "$f" .rs)
+    if grep -q 'path = "../src/' "$f"; then
+      # a test of the server crate (pulls the server modules in by path)
+      mkdir -p server/tests; cp "$f" server/tests/$stem.rs
+      cargo test -p adf-bdd-server --offline --test $stem 2>&1 | grep -E "^test result|error(\[|:)" | head -3
+      cargo test -p adf-bdd-server --offline --test $stem >/dev/null 2>&1 || rc=1
+      rm -rf server/tests
+      continue
+    fi
     cp "$f" lib/tests/$stem.rs
     cargo test -p adf_bdd --offline ${DEMO_ARGS:-} --test $stem 2>&1 | grep -E "^test result|error(\[|:)" | head -3
     cargo test -p adf_bdd --offline ${DEMO_ARGS:-} --test $stem >/dev/null 2>&1 || rc=1
